@@ -16,12 +16,20 @@ open Marwood.Spec.Eval (Val Cell evalN k_lambda k_if_)
 theorem errLaws (final : List LambdaM) : ErrLaws2 (tD final) where
   call_err := by
     intro n W h σ vf p vs ws c σ' _ hvf
-    cases hvf
+    cases hvf with
+    | base hb => cases hb
   callee_other := by
     intro h S v w hv _
-    cases w <;> simp only [tD, tVR] at hv <;> first
-      | (subst hv; rfl)
-      | cases hv
+    cases hv with
+    | base hb =>
+      cases w <;> simp only [tVR] at hb <;> first
+        | (subst hb; rfl)
+        | cases hb
+    | pair hs hd _ _ =>
+      have : v = .pair _ _ := hd
+      subst this
+      rfl
+    | vec hs hv' _ => cases hv'
 
 def lamA : Datum := Datum.ofList [.sym k_lambda, Datum.ofList [.sym kx], Datum.ofList [.sym kx]]
 
@@ -70,7 +78,7 @@ theorem demoA_code0 (S : Array Cell) : CodeAt2 demoDA lamCtx.envmap demoHeapA S 
 theorem demoA_code1 (S : Array Cell) : CodeAt2 demoDA c0.envmap demoHeapA S 1 0 progCode := by
   refine CodeAt2.ofAll2 demoCells1 rfl (fun i _ => by rw [Nat.zero_add]; rfl) ?_
   have hb : Loads2 demoDA c0.envmap demoHeapA S (.datum (.bool true)) (.bool true) :=
-    ⟨(by intro o e; cases e), (by intro w hw; cases hw; rfl)⟩
+    ⟨(by intro o e; cases e), .atom rfl (.base rfl)⟩
   have hlam : Loads2 demoDA c0.envmap demoHeapA S (.lambda 0) (.ptr 0) := by
     refine ⟨rfl, fun lamM hl => ?_⟩
     have : lamM = demoLamA := by
